@@ -369,10 +369,24 @@ void run_queue(const QParams& prm, const ExecCtx& ctx, ExecOut& out) {
     std::string pre;
     for (int i : wr.best_prefix)
       pre += queue_op_str(h.ops[(size_t)i]) + "; ";
-    out.fail(prm.prop, "not-linearizable",
+    // Which kind of violation? If the history becomes linearizable once the 'empty' / 'rejected' verdicts of the worker threads
+    // are not judged, every value was delivered exactly once and in order and only such a verdict is wrong (the queue was not
+    // empty / full at any instant of that call): kind false-empty-or-full. Otherwise values were lost, duplicated, invented
+    // or reordered: kind not-linearizable.
+    const char* kind = "not-linearizable";
+    if (!model.weak) {
+      auto relaxed = model;
+      relaxed.weak = true;
+      WglResult wr2 = wgl_check(h, relaxed, QueueModel::State{});
+      counters().add("wgl_nodes", wr2.nodes);
+      if (wr2.verdict == V_OK)
+        kind = "false-empty-or-full";
+    }
+    out.fail(prm.prop, kind,
              fmt("no linearization of the history w.r.t. the %s model (k=%" PRId64 " cap=%" PRId64
-                 "); longest legal prefix: %s",
-                 model.k > 1 ? "k-FIFO" : "FIFO", model.k, model.capacity, pre.c_str()));
+                 ")%s; longest legal prefix: %s",
+                 model.k > 1 ? "k-FIFO" : "FIFO", model.k, model.capacity,
+                 kind[0] == 'f' ? " - only an 'empty' / 'rejected' verdict of a worker thread is wrong, no value lost or reordered" : "", pre.c_str()));
     return;
   }
   // element ownership census (C07)
